@@ -6,7 +6,7 @@ import numpy as np
 
 
 class IBM:
-    def __init__(self, modules, kills=None, age=False, logfile=None, marker="sibm", agelimit=None, kill_tags=None, touchfile=None, dose=False, settle_age=None, **kw):
+    def __init__(self, modules, kills=None, age=False, logfile=None, marker="sibm", agelimit=None, kill_tags=None, touchfile=None, dose=False, settle_age=None, age_rate=1.0, **kw):
         self.modules = modules
         self.kills = {int(k): list(v) for k, v in (kills or {}).items()}
         self.kill_tags = {int(k): list(v) for k, v in (kill_tags or {}).items()}
@@ -17,6 +17,7 @@ class IBM:
         self.closed = 0
         self.touchfile = touchfile
         self.dose, self.settle_age = dose, settle_age
+        self.age_rate = age_rate  # 0 is a legal value (the age does not advance) and differs from the default
 
     def update(self):
         if self.touchfile:
@@ -28,7 +29,7 @@ class IBM:
         if self.dose:  # a quantity that depends on where the particle is AFTER the move
             st["dose"] = st["dose"] + st.X * self.dt
         if self.age:
-            st["age"] += self.dt
+            st["age"] += self.dt * self.age_rate
             if self.settle_age is not None:  # settled particles stay alive but are not moved any more
                 st["active"] = st.active & (st.age < self.settle_age)
             if self.agelimit is not None:
